@@ -16,7 +16,7 @@ from sa.cfg import NORMAL, describe_path
 from sa.report import Report
 from sa.effects import Effects
 from sa.sides import SideAnalysis, show, canon, neg, provably_different
-from sa.util import cfg_root, node_has_call, node_stores_attr, has_fact
+from sa.util import cfg_root, node_has_call, node_stores_attr, has_fact, fact_in, side_names
 from sa import pat
 
 
@@ -45,6 +45,10 @@ class C03:
         for spec, api, needs in specs:
             f = p.func(spec)
             g = ctx.cfg(f)
+            chn, syn = side_names(ctx, f)
+            if chn is None or syn is None:
+                raise AnalysisError("%s: cannot identify the changed / synced side names" % spec)
+            needs = [n_.replace("[synced]", "[%s]" % syn).replace("[changed]", "[%s]" % chn) for n_ in needs]
             writes = [n for n in g.nodes if cfg_root(n) is not None and any(x in self.eff.provider_mutations(f) and x.func.attr == api for x in ast.walk(cfg_root(n)))]
             if not writes:
                 raise AnalysisError("%s: provider.%s call not found" % (spec, api))
@@ -63,7 +67,7 @@ class C03:
                 raise AnalysisError("%s: no success exit recognised" % spec)
             for need in needs:
                 if need == "sync_path(synced)":
-                    pred = lambda n: _assign(n, "$S[synced].sync_path = $V")   # noqa: E731
+                    pred = lambda n, syn=syn: _assign(n, "$S[%s].sync_path = $V" % syn)   # noqa: E731
                 elif need == "update_entry":
                     pred = lambda n: node_has_call(n, "self.update_entry($$$)")   # noqa: E731
                 else:
@@ -72,8 +76,8 @@ class C03:
                 pth = g.reach([w.id for w in writes], lambda n: n in targets, avoid=pred, follow=NORMAL)
                 # `if not X.sync_path: X.sync_path = ...` (set-if-unset) counts: the false edge means it is already set
                 if pth is not None and need == "sync_path(synced)":
-                    tests = {t.id for t in g.nodes if t.kind == "test" and (pat.match("not $S[synced].sync_path", t.ast) is not None or pat.match("info.path", t.ast) is not None)}
-                    pth = g.reach([w.id for w in writes], lambda n: n in targets, avoid=pred, follow=lambda a, b, l: l != "exc" and not (a in tests and l == "F" and pat.match("not $S[synced].sync_path", g.nodes[a].ast) is not None))
+                    tests = {t.id for t in g.nodes if t.kind == "test" and pat.match("not $S[%s].sync_path" % syn, t.ast) is not None}
+                    pth = g.reach([w.id for w in writes], lambda n: n in targets, avoid=pred, follow=lambda a, b, l: l != "exc" and not (a in tests and l == "F"))
                 rep.check("C03.R1", "%s|%s" % (f.name, need), f, pth is None, "recorded on every success path after provider.%s" % api,
                           "after the engine's own %s the book-keeping `%s` can be skipped on a success path: the echo event looks like a new change and is sent back" % (api, need),
                           witness=describe_path(pth) if pth else None)
@@ -102,7 +106,7 @@ class C03:
                           "the engine marks its own write as a change (changed=%s)" % (ast.unparse(ch) if ch is not None else None), func=f.qname, nontrivial=False)
         ue = p.func("SyncState.update_entry")
         calls = ctx.calls(ue, "mark_changed")
-        good = bool(calls) and all(("changed", True) in ctx.facts_at(ue, c) for c in calls)
+        good = bool(calls) and all(fact_in(ctx.facts_at(ue, c), "changed", True) for c in calls)
         rep.check("C03.R2", "SyncState.update_entry|mark_changed", ue, good, "mark_changed only under `if changed`", "update_entry marks entries changed unconditionally")
         mu = p.func("SyncManager.update_entry")
         d = None
@@ -121,8 +125,8 @@ class C03:
         for f in ctx.prog.functions.values():
             if f.module.name not in ENGINE_MODULES:
                 continue
-            params = f.all_param_names()
-            if not ("changed" in params and ("synced" in params or any(x == "synced" for x in sa_.defs(f)))):
+            chn, syn = side_names(ctx, f)
+            if chn is None or syn is None:
                 continue
             for c in self.eff.provider_mutations(f):
                 ps = sa_.provider_side(f, c.func.value)
